@@ -1,1 +1,1418 @@
-//! C09: not implemented yet.
+//! C09 — Kiss-o'-death codes are handled conservatively.
+//!
+//! Engine E-SEQ: explicit-state breadth-first search over the REAL `NtpSource`
+//! (`handle_timer` / `handle_incoming`), plain and NTS, NTPv4 / NTPv5 / v4-upgrading.
+//! `NtpSource` is not `Clone`, so every successor is rebuilt by replaying the event history
+//! on a fresh source inside a paused tokio runtime; states are de-duplicated on a canonical
+//! key (probe view of the source, identifiers masked, `tries` saturated at 3 because it is
+//! only compared with the start-up threshold 3) joined with the oracle's own state.
+//!
+//! Events: T (timer fires; virtual time is advanced by the previously requested timer),
+//! valid answers to the pending request N (normal), NU (normal + NTPv5 upgrade marker,
+//! upgrading sources only), RATE, DENY, RSTR, NTSN, UNK (unknown kiss code), and DL / DH
+//! (the source's own clock filter, a stub controller, now desires the low / high interval).
+//! All answers are assembled at byte level from the request the source emitted (origin /
+//! client cookie / unique identifier are read back); for NTS sources they are authenticated
+//! with the session's s2c key through the crate's AES-SIV cipher (NTS-NAK is, by its nature,
+//! unauthenticated and carries the identifier in the clear).
+//!
+//! Oracle (from the statement only, see `Model`):
+//!  * RATE: every later poll exponent >= the one just used; the server-imposed floor grows
+//!    one step per RATE until the configured maximum; if the poll just used was longer than
+//!    the source's own desire, the next poll is >= min(p+1, max).
+//!  * DENY/RSTR: NTS -> `Demobilize` immediately; plain -> no action, only marked; a plain
+//!    source is demobilised at a timer only if marked (no usable answer since the mark) and
+//!    unreachable, and a marked source that gives up must demobilise (not reset).
+//!  * NTSN / unknown code: no action, no measurement, probe view bit-identical (the
+//!    protocol-negotiation counter, which belongs to C12, is excluded).
+use std::collections::{BTreeMap, HashMap, HashSet};
+use std::sync::Mutex;
+
+use super::common::{self, Ctx};
+
+/// Shared test rig for C09 and C10: stub controller, byte-level datagram builder /
+/// inspector, source factory and the two drive operations (timer, answer).
+pub(crate) mod rig {
+    use std::collections::HashMap;
+    use std::net::{IpAddr, Ipv4Addr, SocketAddr};
+    use std::sync::atomic::{AtomicI32, AtomicU32, Ordering};
+    use std::sync::{Arc, Mutex, RwLock};
+    use std::time::Duration;
+
+    use crate::algorithm::{Measurement, ObservableSourceTimedata, SourceController};
+    use crate::config::SourceConfig;
+    use crate::cookiestash::CookieStash;
+    use crate::packet::v5::server_reference_id::ServerId;
+    use crate::packet::{AesSivCmac256, Cipher};
+    use crate::source::verif_probe::ge as probe;
+    use crate::source::{NtpSource, NtpSourceAction, ProtocolVersion, SourceNtsData};
+    use crate::system::NtpSourceInfo;
+    use crate::time_types::{NtpDuration, NtpTimestamp, PollInterval, PollIntervalLimits};
+    use crate::ClockId;
+
+    pub(crate) use probe::View;
+
+    #[derive(Clone, Copy, PartialEq, Eq, Hash, Debug, PartialOrd, Ord)]
+    pub(crate) enum Ver {
+        V4,
+        V5,
+        /// `V4UpgradingToV5` with the default number of tries (the daemon's default)
+        Auto,
+    }
+
+    #[derive(Clone, Copy, PartialEq, Eq, Hash, Debug)]
+    pub(crate) struct Cfg {
+        pub nts: bool,
+        pub ver: Ver,
+        pub min: i8,
+        pub init: i8,
+        pub max: i8,
+    }
+
+    impl Cfg {
+        pub fn tag(&self) -> String {
+            format!(
+                "{}-{}-{}.{}.{}",
+                if self.nts { "nts" } else { "plain" },
+                match self.ver {
+                    Ver::V4 => "v4",
+                    Ver::V5 => "v5",
+                    Ver::Auto => "auto",
+                },
+                self.min,
+                self.init,
+                self.max
+            )
+        }
+        pub fn parse(s: &str) -> Option<Cfg> {
+            let mut it = s.split('-');
+            let nts = match it.next()? {
+                "nts" => true,
+                "plain" => false,
+                _ => return None,
+            };
+            let ver = match it.next()? {
+                "v4" => Ver::V4,
+                "v5" => Ver::V5,
+                "auto" => Ver::Auto,
+                _ => return None,
+            };
+            let lim: Vec<i8> = it.next()?.split('.').filter_map(|x| x.parse().ok()).collect();
+            if lim.len() != 3 {
+                return None;
+            }
+            Some(Cfg { nts, ver, min: lim[0], init: lim[1], max: lim[2] })
+        }
+        pub fn source_config(&self) -> SourceConfig {
+            SourceConfig {
+                poll_interval_limits: PollIntervalLimits {
+                    min: PollInterval::from_byte(self.min as u8),
+                    max: PollInterval::from_byte(self.max as u8),
+                },
+                initial_poll_interval: PollInterval::from_byte(self.init as u8),
+            }
+        }
+    }
+
+    // ------------------------------------------------------------------ paused runtime
+
+    std::thread_local! {
+        static RT: tokio::runtime::Runtime = tokio::runtime::Builder::new_current_thread()
+            .enable_time()
+            .start_paused(true)
+            .build()
+            .expect("runtime");
+    }
+
+    /// Like `verif::block_on_paused`, but the paused current-thread runtime is built once per
+    /// worker thread and reused (building one per history dominated the run time). Virtual
+    /// time therefore keeps growing across histories of one thread; the code under test only
+    /// ever uses differences of instants, so observations do not depend on it (the `--replay`
+    /// path uses a fresh runtime and must reproduce the same observation).
+    pub(crate) fn on_paused_rt<T>(f: impl std::future::Future<Output = T>) -> T {
+        RT.with(|rt| rt.block_on(f))
+    }
+
+    // ------------------------------------------------------------------ stub controller
+
+    #[derive(Default)]
+    pub(crate) struct StubShared {
+        pub desire: AtomicI32,
+        pub measurements: AtomicU32,
+        pub usable_calls: AtomicU32,
+        pub usable_last: AtomicI32,
+    }
+
+    /// A source controller whose desired poll interval is whatever the harness says.
+    pub(crate) struct Stub(pub Arc<StubShared>);
+
+    impl SourceController for Stub {
+        fn handle_measurement(&mut self, _: Measurement) {
+            self.0.measurements.fetch_add(1, Ordering::Relaxed);
+        }
+        fn set_usable(&mut self, usable: bool) {
+            self.0.usable_calls.fetch_add(1, Ordering::Relaxed);
+            self.0.usable_last.store(usable as i32, Ordering::Relaxed);
+        }
+        fn desired_poll_interval(&self) -> PollInterval {
+            PollInterval::from_byte(self.0.desire.load(Ordering::Relaxed) as i8 as u8)
+        }
+        fn observe(&self) -> ObservableSourceTimedata {
+            ObservableSourceTimedata {
+                offset: NtpDuration::ZERO,
+                uncertainty: NtpDuration::MAX,
+                delay: NtpDuration::MAX,
+                remote_delay: NtpDuration::MAX,
+                remote_uncertainty: NtpDuration::MAX,
+                last_update: NtpTimestamp::default(),
+            }
+        }
+    }
+
+    // ------------------------------------------------------------------ request inspector
+
+    #[derive(Clone, Debug)]
+    pub(crate) struct Req {
+        pub ver: u8,
+        pub mode: u8,
+        pub poll: i8,
+        /// v4: transmit timestamp of the request; v5: client cookie
+        pub origin: [u8; 8],
+        pub upgrade_marker: bool,
+        pub uid: Option<Vec<u8>>,
+        /// number of cookie + cookie-placeholder fields = cookies the server may return
+        pub cookie_slots: usize,
+        pub cookie_len: usize,
+        pub len: usize,
+    }
+
+    pub(crate) fn parse_request(b: &[u8]) -> Option<Req> {
+        if b.len() < 48 {
+            return None;
+        }
+        let ver = (b[0] >> 3) & 7;
+        let mut r = Req {
+            ver,
+            mode: b[0] & 7,
+            poll: b[2] as i8,
+            origin: [0; 8],
+            upgrade_marker: false,
+            uid: None,
+            cookie_slots: 0,
+            cookie_len: 0,
+            len: b.len(),
+        };
+        if ver == 5 {
+            r.origin.copy_from_slice(&b[24..32]);
+        } else {
+            r.origin.copy_from_slice(&b[40..48]);
+            r.upgrade_marker = &b[16..24] == b"NTP5DRFT";
+        }
+        // walk the extension fields (the request's fields before the authenticator are in
+        // the clear)
+        let mut off = 48;
+        while off + 4 <= b.len() {
+            let ty = u16::from_be_bytes([b[off], b[off + 1]]);
+            let len = u16::from_be_bytes([b[off + 2], b[off + 3]]) as usize;
+            if len < 4 || off + len > b.len() {
+                break;
+            }
+            let body = &b[off + 4..off + len];
+            match ty {
+                0x0104 => r.uid = Some(body.to_vec()),
+                0x0204 => {
+                    r.cookie_slots += 1;
+                    r.cookie_len = body.len();
+                }
+                0x0304 => r.cookie_slots += 1,
+                _ => {}
+            }
+            off += (len + 3) & !3;
+        }
+        Some(r)
+    }
+
+    // ------------------------------------------------------------------ answer builder
+
+    pub(crate) const DRAFT: &[u8] = b"draft-ietf-ntp-ntpv5-09";
+
+    /// What the harness puts on the wire, field by field.
+    #[derive(Clone, Debug)]
+    pub(crate) struct Wire {
+        pub stratum: u8,
+        /// v4: reference id; v5: first four bytes of the server cookie
+        pub code: [u8; 4],
+        pub poll: u8,
+        pub authnak: bool,
+        /// v4 only: reference timestamp = NTPv5 upgrade marker
+        pub marker: bool,
+        /// NTS only: authenticate with the s2c key (false: identifier in the clear, no authenticator)
+        pub authenticated: bool,
+        /// NTS only: number of fresh cookies inside the encrypted part
+        pub cookies: usize,
+        /// server clock minus client clock, ns
+        pub offset_ns: i64,
+        /// one-way network delay, ns
+        pub delay_ns: u32,
+    }
+
+    fn put_ef(out: &mut Vec<u8>, ty: u16, body: &[u8], v5: bool) {
+        let len = 4 + body.len();
+        let padded = (len + 3) & !3;
+        out.extend_from_slice(&ty.to_be_bytes());
+        out.extend_from_slice(&((if v5 { len } else { padded }) as u16).to_be_bytes());
+        out.extend_from_slice(body);
+        out.resize(out.len() + (padded - len), 0);
+    }
+
+    pub(crate) fn ts_bytes(total_ns: u128) -> [u8; 8] {
+        let secs = (total_ns / 1_000_000_000) as u64 as u32;
+        let nanos = (total_ns % 1_000_000_000) as u64;
+        let frac = ((nanos << 32) / 1_000_000_000) as u32;
+        let mut b = [0u8; 8];
+        b[..4].copy_from_slice(&secs.to_be_bytes());
+        b[4..].copy_from_slice(&frac.to_be_bytes());
+        b
+    }
+
+    pub(crate) fn ts(total_ns: u128) -> NtpTimestamp {
+        NtpTimestamp::from_seconds_nanos_since_ntp_era(
+            (total_ns / 1_000_000_000) as u64 as u32,
+            (total_ns % 1_000_000_000) as u32,
+        )
+    }
+
+    /// Assemble the server datagram answering `req`. `client_send_ns` is the client's clock
+    /// at transmission. `cookie_ctr` makes every cookie value unique.
+    pub(crate) fn build_answer(
+        req: &Req,
+        w: &Wire,
+        s2c: Option<&dyn Cipher>,
+        client_send_ns: u128,
+        cookie_ctr: &mut u64,
+    ) -> Vec<u8> {
+        let v5 = req.ver == 5;
+        let server_ns = (client_send_ns as i128 + w.delay_ns as i128 + w.offset_ns as i128).max(0) as u128;
+        let rx = ts_bytes(server_ns);
+        let tx = ts_bytes(server_ns + 1_000);
+        let mut out = Vec::with_capacity(256);
+        let synchronized = w.stratum != 0 && w.stratum < 16;
+        let li: u8 = if v5 && !synchronized { 3 } else { 0 };
+        out.push((li << 6) | (req.ver << 3) | 4);
+        out.push(w.stratum);
+        out.push(w.poll);
+        out.push(if w.stratum == 0 { 0 } else { 0xEC }); // precision 2^-20
+        if v5 {
+            out.extend_from_slice(&[0, 0, 0x10, 0]); // root delay (time32)
+            out.extend_from_slice(&[0, 0, 0x10, 0]); // root dispersion
+            out.push(0); // timescale UTC
+            out.push(0); // era
+            let mut flags = 0u8;
+            if synchronized {
+                flags |= 1;
+            }
+            if w.authnak {
+                flags |= 4;
+            }
+            out.extend_from_slice(&[0, flags]);
+            out.extend_from_slice(&w.code);
+            out.extend_from_slice(&[0x5e, 0x11, 0x22, 0x33]); // rest of the server cookie
+            out.extend_from_slice(&req.origin); // client cookie
+        } else {
+            out.extend_from_slice(&[0, 0, 0, 0x40]); // root delay (short)
+            out.extend_from_slice(&[0, 0, 0, 0x40]); // root dispersion
+            out.extend_from_slice(&w.code);
+            if w.marker {
+                out.extend_from_slice(b"NTP5DRFT");
+            } else {
+                out.extend_from_slice(&ts_bytes(server_ns.saturating_sub(7_000_000_000)));
+            }
+            out.extend_from_slice(&req.origin); // origin timestamp
+        }
+        out.extend_from_slice(&rx);
+        out.extend_from_slice(&tx);
+        debug_assert_eq!(out.len(), 48);
+        if let Some(uid) = &req.uid {
+            // NTS request: echo the unique identifier
+            put_ef(&mut out, 0x0104, uid, v5);
+        }
+        if v5 {
+            put_ef(&mut out, 0xF5FF, DRAFT, true);
+        }
+        if let (Some(cipher), true, true) = (s2c, req.uid.is_some(), w.authenticated) {
+            // NTS authenticator and encrypted extension fields (RFC 8915 5.6), AAD = everything so far
+            let mut plain = Vec::new();
+            for _ in 0..w.cookies {
+                *cookie_ctr += 1;
+                let mut cookie = vec![0xC0u8; req.cookie_len.max(16) & !3];
+                cookie[..8].copy_from_slice(&cookie_ctr.to_be_bytes());
+                put_ef(&mut plain, 0x0204, &cookie, v5);
+            }
+            let mut buf = vec![0u8; plain.len() + 64];
+            buf[..plain.len()].copy_from_slice(&plain);
+            let r = cipher.encrypt(&mut buf, plain.len(), &out).expect("encrypt");
+            let mut body = Vec::with_capacity(4 + r.nonce_length + r.ciphertext_length);
+            body.extend_from_slice(&(r.nonce_length as u16).to_be_bytes());
+            body.extend_from_slice(&(r.ciphertext_length as u16).to_be_bytes());
+            body.extend_from_slice(&buf[..r.nonce_length]);
+            body.resize((body.len() + 3) & !3, 0);
+            body.extend_from_slice(&buf[r.nonce_length..r.nonce_length + r.ciphertext_length]);
+            put_ef(&mut out, 0x0404, &body, v5);
+        }
+        out
+    }
+
+    // ------------------------------------------------------------------ the rig
+
+    #[derive(Clone, Debug, PartialEq)]
+    pub(crate) enum TimerOut {
+        Sent { poll: i8, ver: u8, timer: Duration, len: usize },
+        Reset,
+        Demobilize,
+        Odd(String),
+    }
+
+    #[derive(Clone, Debug, Default, PartialEq, Eq)]
+    pub(crate) struct Acts {
+        pub send: u32,
+        pub timer: u32,
+        pub reset: u32,
+        pub demobilize: u32,
+    }
+
+    impl Acts {
+        pub fn is_empty(&self) -> bool {
+            *self == Acts::default()
+        }
+    }
+
+    pub(crate) fn s2c_key() -> AesSivCmac256 {
+        AesSivCmac256::new([0x5C; 32].into())
+    }
+
+    pub(crate) fn c2s_key() -> AesSivCmac256 {
+        AesSivCmac256::new([0xC2; 32].into())
+    }
+
+    pub(crate) const BASE_NS: u128 = 3_900_000_000u128 * 1_000_000_000;
+    /// advances of the paused clock are capped here (2^18 s); affects only how far virtual
+    /// time moves for server-requested intervals > 2^17 s, never what the source does
+    pub(crate) const MAX_ADVANCE: Duration = Duration::from_secs(1 << 18);
+
+    pub(crate) struct Rig<C: SourceController> {
+        pub cfg: Cfg,
+        pub src: NtpSource<C>,
+        pub req: Option<Req>,
+        pub last_request: Vec<u8>,
+        pub elapsed: Duration,
+        pub next_timer: Duration,
+        pub cookie_ctr: u64,
+        pub send_ns: u128,
+        s2c: Option<AesSivCmac256>,
+    }
+
+    impl<C: SourceController> Rig<C> {
+        pub fn new(cfg: Cfg, controller: C) -> Self {
+            let initial: Vec<Vec<u8>> = (0..8u8)
+                .map(|i| {
+                    let mut c = vec![0xA0u8; 64];
+                    c[0] = i;
+                    c
+                })
+                .collect();
+            Self::with_cookies(cfg, controller, initial)
+        }
+
+        /// `initial_cookies`: what the NTS key exchange would have handed to the source
+        /// (opaque for the byte-level answers; real `KeySet` cookies for the genuine server).
+        pub fn with_cookies(cfg: Cfg, controller: C, initial_cookies: Vec<Vec<u8>>) -> Self {
+            let nts = if cfg.nts {
+                let mut cookies = CookieStash::default();
+                for c in initial_cookies {
+                    cookies.store(c);
+                }
+                Some(Box::new(SourceNtsData {
+                    cookies,
+                    c2s: Box::new(c2s_key()),
+                    s2c: Box::new(s2c_key()),
+                }))
+            } else {
+                None
+            };
+            let pv = match cfg.ver {
+                Ver::V4 => ProtocolVersion::V4,
+                Ver::V5 => ProtocolVersion::V5,
+                Ver::Auto => ProtocolVersion::v4_upgrading_to_v5_with_default_tries(),
+            };
+            let info = NtpSourceInfo {
+                ip_list: Arc::from(Vec::<IpAddr>::new()),
+                server_id: ServerId::default(),
+                local_stratum: 16,
+            };
+            let (src, init) = NtpSource::new(
+                SocketAddr::new(IpAddr::V4(Ipv4Addr::new(192, 0, 2, 7)), 123),
+                cfg.source_config(),
+                pv,
+                controller,
+                nts,
+                ClockId::new(),
+                Arc::new(RwLock::new(info)),
+                Arc::new(Mutex::new(HashMap::new())),
+            );
+            let mut next_timer = Duration::ZERO;
+            for a in init {
+                if let NtpSourceAction::SetTimer(d) = a {
+                    next_timer = d;
+                }
+            }
+            Rig {
+                cfg,
+                src,
+                req: None,
+                last_request: Vec::new(),
+                elapsed: Duration::ZERO,
+                next_timer,
+                cookie_ctr: 0,
+                send_ns: BASE_NS,
+                s2c: if cfg.nts { Some(s2c_key()) } else { None },
+            }
+        }
+
+        pub fn view(&self) -> View {
+            probe::view(&self.src)
+        }
+
+        pub fn pending_fingerprint(&self) -> Option<String> {
+            probe::pending_fingerprint(&self.src)
+        }
+
+        pub fn controller(&self) -> &C {
+            probe::controller(&self.src)
+        }
+
+        /// The timer the source asked for expires: advance virtual time, call `handle_timer`.
+        pub async fn timer(&mut self) -> TimerOut {
+            let d = self.next_timer.min(MAX_ADVANCE);
+            if !d.is_zero() {
+                tokio::time::advance(d).await;
+            }
+            self.elapsed += d;
+            self.send_ns = BASE_NS + self.elapsed.as_nanos();
+            let mut sent = None;
+            let mut timer = None;
+            let mut other = Acts::default();
+            let mut n = 0;
+            for a in self.src.handle_timer() {
+                n += 1;
+                match a {
+                    NtpSourceAction::Send(b) => {
+                        other.send += 1;
+                        sent = Some(b)
+                    }
+                    NtpSourceAction::SetTimer(d) => {
+                        other.timer += 1;
+                        timer = Some(d)
+                    }
+                    NtpSourceAction::Reset => other.reset += 1,
+                    NtpSourceAction::Demobilize => other.demobilize += 1,
+                }
+            }
+            match (sent, timer) {
+                (Some(b), Some(t)) if n == 2 => {
+                    let Some(req) = parse_request(&b) else {
+                        return TimerOut::Odd(format!("unparsable request of {} bytes", b.len()));
+                    };
+                    let out = TimerOut::Sent { poll: req.poll, ver: req.ver, timer: t, len: b.len() };
+                    self.req = Some(req);
+                    self.last_request = b;
+                    self.next_timer = t;
+                    out
+                }
+                (None, None) if n == 1 && other.reset == 1 => TimerOut::Reset,
+                (None, None) if n == 1 && other.demobilize == 1 => TimerOut::Demobilize,
+                _ => TimerOut::Odd(format!("{other:?}")),
+            }
+        }
+
+        /// Deliver `w` as the answer to the most recently emitted request (no time passes
+        /// between the request and the answer, so it is always inside the 5 s window).
+        pub fn answer(&mut self, w: &Wire) -> (Acts, Vec<u8>) {
+            let req = self.req.clone().expect("answer without request");
+            let bytes = build_answer(
+                &req,
+                w,
+                self.s2c.as_ref().map(|c| c as &dyn Cipher),
+                self.send_ns,
+                &mut self.cookie_ctr,
+            );
+            (self.deliver(&bytes, w.delay_ns), bytes)
+        }
+
+        pub fn deliver(&mut self, bytes: &[u8], delay_ns: u32) -> Acts {
+            let mut acts = Acts::default();
+            let send = ts(self.send_ns);
+            let recv = ts(self.send_ns + 2 * delay_ns as u128 + 1_000);
+            for a in self.src.handle_incoming(bytes, send, recv) {
+                match a {
+                    NtpSourceAction::Send(_) => acts.send += 1,
+                    NtpSourceAction::SetTimer(_) => acts.timer += 1,
+                    NtpSourceAction::Reset => acts.reset += 1,
+                    NtpSourceAction::Demobilize => acts.demobilize += 1,
+                }
+            }
+            acts
+        }
+    }
+
+    // ------------------------------------------------------------------ answer catalogue
+
+    pub(crate) fn normal(req: &Req, poll: u8, marker: bool) -> Wire {
+        Wire {
+            stratum: 2,
+            code: [10, 0, 0, 1],
+            poll,
+            authnak: false,
+            marker,
+            authenticated: true,
+            cookies: req.cookie_slots,
+            offset_ns: 0,
+            delay_ns: 500_000,
+        }
+    }
+
+    #[derive(Clone, Copy, PartialEq, Eq, Hash, Debug, PartialOrd, Ord)]
+    pub(crate) enum Kiss {
+        Rate,
+        Deny,
+        Rstr,
+        Ntsn,
+        Unknown,
+    }
+
+    /// The wire form of each kiss class for the version of the pending request. NTPv5 has no
+    /// kiss codes: RATE = stratum 0 + poll above the client's, DENY = poll 127, NAK = authnak
+    /// flag; RSTR does not exist (None). Everything else with stratum 0 is "unknown".
+    pub(crate) fn kiss(req: &Req, k: Kiss) -> Option<Wire> {
+        let mut w = Wire {
+            stratum: 0,
+            code: *b"XKOD",
+            poll: 0,
+            authnak: false,
+            marker: false,
+            authenticated: true,
+            cookies: 0,
+            offset_ns: 0,
+            delay_ns: 500_000,
+        };
+        if req.ver == 5 {
+            match k {
+                Kiss::Rate => w.poll = (req.poll as u8).wrapping_add(1),
+                Kiss::Deny => w.poll = 127,
+                Kiss::Rstr => return None,
+                Kiss::Ntsn => {
+                    w.authnak = true;
+                    w.authenticated = false;
+                    w.poll = req.poll as u8;
+                }
+                Kiss::Unknown => w.poll = req.poll as u8,
+            }
+        } else {
+            match k {
+                Kiss::Rate => w.code = *b"RATE",
+                Kiss::Deny => w.code = *b"DENY",
+                Kiss::Rstr => w.code = *b"RSTR",
+                Kiss::Ntsn => {
+                    w.code = *b"NTSN";
+                    w.authenticated = false;
+                }
+                Kiss::Unknown => w.code = *b"XKOD",
+            }
+        }
+        Some(w)
+    }
+}
+
+/// Real `Server`s with real `KeySet`s: the genuine counterpart of the byte-level answers
+/// (the server can produce normal answers, DENY and NTS-NAK; it never sends RATE or RSTR).
+mod genuine {
+    use std::net::IpAddr;
+    use std::sync::Arc;
+    use std::time::Duration;
+
+    use super::rig;
+    use crate::keyset::{DecodedServerCookie, KeySetProvider};
+    use crate::nts::AeadAlgorithm;
+    use crate::server::{FilterAction, FilterList, Server, ServerAction, ServerConfig, ServerReason, ServerResponse, ServerStatHandler};
+    use crate::time_types::{NtpDuration, NtpTimestamp};
+    use crate::{NtpClock, NtpLeapIndicator, NtpVersion};
+
+    #[derive(Clone, Default)]
+    pub(super) struct Clk;
+    impl NtpClock for Clk {
+        type Error = std::io::Error;
+        fn now(&self) -> Result<NtpTimestamp, Self::Error> {
+            Ok(rig::ts(rig::BASE_NS + 2_000_000))
+        }
+        fn set_frequency(&self, _: f64) -> Result<NtpTimestamp, Self::Error> {
+            Ok(NtpTimestamp::default())
+        }
+        fn get_frequency(&self) -> Result<f64, Self::Error> {
+            Ok(0.0)
+        }
+        fn step_clock(&self, _: NtpDuration) -> Result<NtpTimestamp, Self::Error> {
+            Ok(NtpTimestamp::default())
+        }
+        fn disable_ntp_algorithm(&self) -> Result<(), Self::Error> {
+            Ok(())
+        }
+        fn error_estimate_update(&self, _: NtpDuration, _: NtpDuration) -> Result<(), Self::Error> {
+            Ok(())
+        }
+        fn status_update(&self, _: NtpLeapIndicator) -> Result<(), Self::Error> {
+            Ok(())
+        }
+    }
+
+    struct NoStats;
+    impl ServerStatHandler for NoStats {
+        fn register(&mut self, _: u8, _: bool, _: ServerReason, _: ServerResponse) {}
+    }
+
+    #[derive(Clone, Copy, PartialEq, Eq, Debug)]
+    pub(super) enum Which {
+        Allow,
+        Deny,
+        /// a server that does not know the key the client's cookies were made with -> NTS-NAK
+        Foreign,
+    }
+
+    pub(super) struct Servers {
+        allow: Server<Clk>,
+        deny: Server<Clk>,
+        foreign: Server<Clk>,
+        pub cookies: Vec<Vec<u8>>,
+    }
+
+    fn config(deny_all: bool) -> ServerConfig {
+        let everyone = vec!["0.0.0.0/0".parse().unwrap(), "::/0".parse().unwrap()];
+        ServerConfig {
+            denylist: FilterList { filter: if deny_all { everyone.clone() } else { vec![] }, action: FilterAction::Deny },
+            allowlist: FilterList { filter: everyone, action: FilterAction::Ignore },
+            rate_limiting_cache_size: 0,
+            rate_limiting_cutoff: Duration::from_secs(0),
+            require_nts: None,
+            accepted_versions: vec![NtpVersion::V3, NtpVersion::V4, NtpVersion::V5],
+        }
+    }
+
+    impl Servers {
+        pub fn new() -> Self {
+            let keyset = KeySetProvider::new(1).get();
+            let other = KeySetProvider::new(1).get();
+            let session = DecodedServerCookie {
+                algorithm: AeadAlgorithm::AeadAesSivCmac256,
+                s2c: Box::new(rig::s2c_key()),
+                c2s: Box::new(rig::c2s_key()),
+            };
+            let cookies = (0..8).map(|_| keyset.encode_cookie(&session)).collect();
+            Servers {
+                allow: Server::new_internal(config(false), Clk, Arc::default(), keyset.clone()),
+                deny: Server::new_internal(config(true), Clk, Arc::default(), keyset),
+                foreign: Server::new_internal(config(false), Clk, Arc::default(), other),
+                cookies,
+            }
+        }
+
+        pub fn answer(&mut self, which: Which, request: &[u8]) -> Option<Vec<u8>> {
+            let server = match which {
+                Which::Allow => &mut self.allow,
+                Which::Deny => &mut self.deny,
+                Which::Foreign => &mut self.foreign,
+            };
+            let mut buf = [0u8; 1024];
+            let ip: IpAddr = "192.0.2.99".parse().unwrap();
+            match server.handle(ip, rig::ts(rig::BASE_NS + 1_000_000), request, &mut buf, &mut NoStats) {
+                ServerAction::Ignore => None,
+                ServerAction::Respond { message } => Some(message.to_vec()),
+            }
+        }
+    }
+}
+
+use rig::{Cfg, Kiss, Rig, Stub, StubShared, TimerOut, Ver, View};
+use std::sync::atomic::Ordering;
+use std::sync::Arc;
+
+// ---------------------------------------------------------------------- events
+
+#[derive(Clone, Copy, PartialEq, Eq, Hash, Debug, PartialOrd, Ord)]
+enum Ev {
+    T,
+    N,
+    NU,
+    Rate,
+    Deny,
+    Rstr,
+    Ntsn,
+    Unk,
+    DL,
+    DH,
+    /// answers produced by a real `Server` (part G): normal, DENY, NTS-NAK
+    GN,
+    GD,
+    GK,
+}
+
+const ALL_EV: [Ev; 10] = [Ev::T, Ev::N, Ev::NU, Ev::Rate, Ev::Deny, Ev::Rstr, Ev::Ntsn, Ev::Unk, Ev::DL, Ev::DH];
+const GENUINE_EV: [Ev; 4] = [Ev::T, Ev::GN, Ev::GD, Ev::GK];
+
+impl Ev {
+    fn code(self) -> &'static str {
+        match self {
+            Ev::T => "T",
+            Ev::N => "N",
+            Ev::NU => "NU",
+            Ev::Rate => "RATE",
+            Ev::Deny => "DENY",
+            Ev::Rstr => "RSTR",
+            Ev::Ntsn => "NTSN",
+            Ev::Unk => "UNK",
+            Ev::DL => "DL",
+            Ev::DH => "DH",
+            Ev::GN => "GN",
+            Ev::GD => "GD",
+            Ev::GK => "GK",
+        }
+    }
+    fn parse(s: &str) -> Option<Ev> {
+        ALL_EV.iter().chain(GENUINE_EV.iter()).copied().find(|e| e.code() == s)
+    }
+    fn is_answer(self) -> bool {
+        !matches!(self, Ev::T | Ev::DL | Ev::DH)
+    }
+}
+
+fn fmt_hist(cfg: &Cfg, h: &[Ev]) -> String {
+    format!("{};{}", cfg.tag(), h.iter().map(|e| e.code()).collect::<Vec<_>>().join(","))
+}
+
+fn parse_trace(t: &str) -> Option<(Cfg, Vec<Ev>)> {
+    let (c, h) = t.split_once(';')?;
+    let cfg = Cfg::parse(c)?;
+    let evs = if h.trim().is_empty() {
+        vec![]
+    } else {
+        h.split(',').map(|x| Ev::parse(x.trim())).collect::<Option<Vec<_>>>()?
+    };
+    Some((cfg, evs))
+}
+
+// ---------------------------------------------------------------------- oracle model
+
+/// The reference model: written from the statement, never reads the source's fields.
+#[derive(Clone, Debug, PartialEq, Eq, Hash, PartialOrd, Ord)]
+struct Model {
+    /// lower bound every later poll exponent must respect (None until the first RATE)
+    floor: Option<i8>,
+    /// server-imposed interval implied by the RATE answers so far (starts at configured min)
+    rate_steps: i8,
+    /// a valid DENY/RSTR was seen and no usable answer since (plain sources)
+    marked: bool,
+    /// polls sent, saturated at 3
+    polls: u8,
+    /// polls sent since the last usable answer, saturated at 8
+    since_usable: u8,
+    ever_usable: bool,
+    /// a request is outstanding and has not been consumed by a usable answer
+    pending: bool,
+    last_poll: i8,
+    last_desire: i8,
+    /// 0 running, 1 reset, 2 demobilised
+    terminal: u8,
+}
+
+impl Model {
+    fn new(cfg: &Cfg) -> Self {
+        Model {
+            floor: None,
+            rate_steps: cfg.min,
+            marked: false,
+            polls: 0,
+            since_usable: 0,
+            ever_usable: false,
+            pending: false,
+            last_poll: cfg.min,
+            last_desire: cfg.min,
+            terminal: 0,
+        }
+    }
+    fn unreachable(&self) -> bool {
+        if self.ever_usable { self.since_usable >= 8 } else { self.polls >= 3 }
+    }
+}
+
+#[derive(Clone, Debug, PartialEq, Eq, Hash, PartialOrd, Ord)]
+struct Key {
+    view: View,
+    desire: i8,
+    model: Model,
+}
+
+struct End {
+    key: Key,
+    /// the last event was applicable (enabled) in the state before it
+    applied: bool,
+    obs: String,
+}
+
+fn desire_values(cfg: &Cfg) -> (i8, i8) {
+    (cfg.min, (cfg.min + 2).min(cfg.max))
+}
+
+/// Replay `hist` on a fresh source. Oracle checks run on the LAST event only when `ctx` is
+/// given (earlier transitions were checked when their own prefix was expanded).
+async fn replay_hist(cfg: &Cfg, hist: &[Ev], ctx: Option<&Ctx>, classes: Option<&Mutex<BTreeMap<String, u64>>>) -> End {
+    let shared = Arc::new(StubShared::default());
+    let (lo, hi) = desire_values(cfg);
+    shared.desire.store(lo as i32, Ordering::Relaxed);
+    let mut servers = if hist.iter().any(|e| matches!(e, Ev::GN | Ev::GD | Ev::GK)) { Some(genuine::Servers::new()) } else { None };
+    let mut rig = match &servers {
+        Some(s) => Rig::with_cookies(*cfg, Stub(shared.clone()), s.cookies.clone()),
+        None => Rig::new(*cfg, Stub(shared.clone())),
+    };
+    let mut model = Model::new(cfg);
+    let mut applied = true;
+    let mut obs = String::new();
+    let n = hist.len();
+    for (i, ev) in hist.iter().enumerate() {
+        let last = i + 1 == n;
+        let check = if last { ctx } else { None };
+        let trace = || fmt_hist(cfg, &hist[..=i]);
+        let bump = |c: &str| {
+            if last {
+                if let Some(m) = classes {
+                    *m.lock().unwrap().entry(c.to_string()).or_insert(0) += 1;
+                }
+            }
+        };
+        if model.terminal != 0 {
+            applied = false;
+            break;
+        }
+        match *ev {
+            Ev::DL | Ev::DH => {
+                let target = if *ev == Ev::DL { lo } else { hi };
+                if shared.desire.load(Ordering::Relaxed) == target as i32 {
+                    applied = false;
+                    break;
+                }
+                shared.desire.store(target as i32, Ordering::Relaxed);
+                bump("desire-change");
+            }
+            Ev::T => {
+                let desire = shared.desire.load(Ordering::Relaxed) as i8;
+                let out = rig.timer().await;
+                if last {
+                    // the jittered timer value is random by design: keep it out of the observation
+                    obs = match &out {
+                        TimerOut::Sent { poll, ver, len, .. } => format!("Sent poll {poll} v{ver} {len} bytes"),
+                        other => format!("{other:?}"),
+                    };
+                }
+                match out {
+                    TimerOut::Sent { poll, .. } => {
+                        bump("poll-sent");
+                        if let Some(f) = model.floor {
+                            bump("poll-sent-after-rate");
+                            if poll > model.last_poll {
+                                bump("poll-lengthened");
+                            }
+                            if poll < f {
+                                if let Some(c) = check {
+                                    c.violation(
+                                        "C09:poll-faster-after-rate",
+                                        format!("poll exponent {poll} sent although the RATE answers so far require >= {f} (config min {} max {}, own desire {desire})", cfg.min, cfg.max),
+                                        trace(),
+                                    );
+                                }
+                            }
+                        }
+                        model.polls = (model.polls + 1).min(3);
+                        model.since_usable = (model.since_usable + 1).min(8);
+                        model.pending = true;
+                        model.last_poll = poll;
+                        model.last_desire = desire;
+                    }
+                    TimerOut::Reset => {
+                        bump("timer-reset");
+                        model.terminal = 1;
+                        if !cfg.nts && model.marked {
+                            bump("timer-reset-while-marked");
+                            if let Some(c) = check {
+                                c.violation(
+                                    "C09:deny-forgotten-at-giveup",
+                                    "plain source saw a valid DENY/RSTR, got no usable answer since, became unreachable, but resets (retries) instead of demobilising",
+                                    trace(),
+                                );
+                            }
+                        }
+                    }
+                    TimerOut::Demobilize => {
+                        bump("timer-demobilize");
+                        model.terminal = 2;
+                        if let Some(c) = check {
+                            if cfg.nts {
+                                c.violation(
+                                    "C09:nts-demobilize-at-timer",
+                                    "NTS source demobilised at a timer; a valid DENY/RSTR must demobilise it immediately and nothing else may",
+                                    trace(),
+                                );
+                            } else if !model.marked {
+                                c.violation(
+                                    "C09:demobilize-without-deny",
+                                    "plain source demobilised although no valid DENY/RSTR is outstanding (none seen, or a usable answer arrived since)",
+                                    trace(),
+                                );
+                            } else if !model.unreachable() {
+                                c.violation(
+                                    "C09:demobilize-while-reachable",
+                                    format!("plain source demobilised while still reachable (polls since last usable answer {}, ever usable {})", model.since_usable, model.ever_usable),
+                                    trace(),
+                                );
+                            }
+                        }
+                    }
+                    TimerOut::Odd(s) => {
+                        model.terminal = 1;
+                        if let Some(c) = check {
+                            c.violation("C09:odd-timer-actions", format!("handle_timer returned {s}"), trace());
+                        }
+                    }
+                }
+            }
+            a => {
+                // an answer: only "valid" ones are in scope = a request is outstanding in
+                // the harness's eyes AND the source still holds it
+                let v0 = rig.view();
+                if !(model.pending && v0.pending) {
+                    applied = false;
+                    break;
+                }
+                let req = rig.req.clone().expect("pending without request");
+                // genuine answers: bytes come from a real Server; they are then judged exactly
+                // like their byte-level counterparts
+                let (a, genuine_bytes) = match a {
+                    Ev::GN | Ev::GD | Ev::GK => {
+                        let which = match a {
+                            Ev::GN => genuine::Which::Allow,
+                            Ev::GD => genuine::Which::Deny,
+                            _ => genuine::Which::Foreign,
+                        };
+                        if a == Ev::GK && !cfg.nts {
+                            applied = false;
+                            break;
+                        }
+                        let bytes = servers.as_mut().and_then(|s| s.answer(which, &rig.last_request));
+                        let Some(bytes) = bytes else {
+                            bump("genuine-server-silent");
+                            applied = false;
+                            break;
+                        };
+                        bump(match a {
+                            Ev::GN => "genuine-normal",
+                            Ev::GD => "genuine-deny",
+                            _ => "genuine-nak",
+                        });
+                        (
+                            match a {
+                                Ev::GN => Ev::N,
+                                Ev::GD => Ev::Deny,
+                                _ => Ev::Ntsn,
+                            },
+                            Some(bytes),
+                        )
+                    }
+                    other => (other, None),
+                };
+                let wire = match a {
+                    Ev::N => Some(rig::normal(&req, req.poll as u8, false)),
+                    Ev::NU => {
+                        if cfg.ver == Ver::Auto && req.ver == 4 && req.upgrade_marker {
+                            Some(rig::normal(&req, req.poll as u8, true))
+                        } else {
+                            None
+                        }
+                    }
+                    Ev::Rate => rig::kiss(&req, Kiss::Rate),
+                    Ev::Deny => rig::kiss(&req, Kiss::Deny),
+                    Ev::Rstr => rig::kiss(&req, Kiss::Rstr),
+                    Ev::Ntsn => rig::kiss(&req, Kiss::Ntsn),
+                    Ev::Unk => rig::kiss(&req, Kiss::Unknown),
+                    _ => unreachable!(),
+                };
+                let Some(wire) = wire else {
+                    applied = false;
+                    break;
+                };
+                let fp0 = rig.pending_fingerprint();
+                let m0 = shared.measurements.load(Ordering::Relaxed);
+                let u0 = shared.usable_calls.load(Ordering::Relaxed);
+                let (acts, bytes) = match genuine_bytes {
+                    Some(b) => (rig.deliver(&b, wire.delay_ns), b),
+                    None => rig.answer(&wire),
+                };
+                let v1 = rig.view();
+                let fp1 = rig.pending_fingerprint();
+                let m1 = shared.measurements.load(Ordering::Relaxed);
+                let u1 = shared.usable_calls.load(Ordering::Relaxed);
+                if last {
+                    obs = format!("{acts:?} {v1:?} meas+{}", m1 - m0);
+                }
+                match a {
+                    Ev::N | Ev::NU => {
+                        if m1 > m0 {
+                            bump("normal-usable");
+                            model.marked = false;
+                            model.ever_usable = true;
+                            model.since_usable = 0;
+                            model.pending = false;
+                        } else {
+                            // whether a normal answer is usable is C08's business; if the
+                            // source refused it the request is simply still outstanding
+                            bump("normal-refused");
+                        }
+                        if acts.demobilize > 0 {
+                            if let Some(c) = check {
+                                c.violation("C09:demobilize-on-normal-answer", "a normal answer demobilised the source", trace());
+                            }
+                            model.terminal = 2;
+                        }
+                    }
+                    Ev::Rate => {
+                        bump("rate");
+                        if !acts.is_empty() {
+                            if let Some(c) = check {
+                                c.violation("C09:rate-produces-action", format!("valid RATE answer produced actions {acts:?}"), trace());
+                            }
+                            if acts.demobilize > 0 || acts.reset > 0 {
+                                model.terminal = 2;
+                            }
+                        }
+                        let p = model.last_poll;
+                        model.rate_steps = (model.rate_steps + 1).min(cfg.max).max(model.rate_steps);
+                        let mut f = model.floor.unwrap_or(i8::MIN).max(p).max(model.rate_steps);
+                        if p > model.last_desire {
+                            // the interval just used was not the source's own: it must grow
+                            f = f.max((p.saturating_add(1)).min(cfg.max.max(p)));
+                            if p < cfg.max {
+                                bump("rate-must-lengthen");
+                            }
+                        }
+                        model.floor = Some(f);
+                    }
+                    Ev::Deny | Ev::Rstr => {
+                        if cfg.nts {
+                            bump("nts-deny");
+                            if acts.demobilize == 0 {
+                                if let Some(c) = check {
+                                    c.violation(
+                                        "C09:nts-deny-not-demobilized",
+                                        format!("authenticated {} did not demobilise the NTS source (actions {acts:?})", a.code()),
+                                        trace(),
+                                    );
+                                }
+                            } else {
+                                bump("nts-deny-demobilized");
+                            }
+                            model.terminal = 2;
+                        } else {
+                            bump("plain-deny");
+                            if !acts.is_empty() {
+                                if let Some(c) = check {
+                                    c.violation(
+                                        "C09:plain-deny-immediate-action",
+                                        format!("unauthenticated {} must only be noted, but produced {acts:?}", a.code()),
+                                        trace(),
+                                    );
+                                }
+                                if acts.demobilize > 0 || acts.reset > 0 {
+                                    model.terminal = 2;
+                                }
+                            }
+                            model.marked = true;
+                        }
+                    }
+                    Ev::Ntsn | Ev::Unk => {
+                        bump(if a == Ev::Ntsn { "ntsn" } else { "unknown-kiss" });
+                        let mut a0 = v0.clone();
+                        let mut a1 = v1.clone();
+                        // version negotiation bookkeeping is C12's, not part of this statement
+                        a0.proto = (0, 0);
+                        a1.proto = (0, 0);
+                        let changed = a0 != a1 || fp0 != fp1 || m1 != m0 || u1 != u0 || !acts.is_empty();
+                        if changed {
+                            if let Some(c) = check {
+                                c.violation(
+                                    "C09:nak-or-unknown-kiss-changes-state",
+                                    format!(
+                                        "{} changed the source: actions {acts:?}, measurements +{}, set_usable +{}, before {a0:?} after {a1:?}, pending id {}",
+                                        a.code(),
+                                        m1 - m0,
+                                        u1 - u0,
+                                        if fp0 == fp1 { "same" } else { "changed" }
+                                    ),
+                                    trace(),
+                                );
+                            }
+                            if acts.demobilize > 0 || acts.reset > 0 {
+                                model.terminal = 2;
+                            }
+                        }
+                    }
+                    _ => unreachable!(),
+                }
+                let _ = bytes;
+            }
+        }
+    }
+    let view = {
+        let mut v = rig.view();
+        v.tries = v.tries.min(3);
+        v
+    };
+    if model.terminal == 0 && model.pending != view.pending && applied {
+        if let Some(m) = classes {
+            *m.lock().unwrap().entry("pending-view-differs".to_string()).or_insert(0) += 1;
+        }
+    }
+    End {
+        key: Key { view, desire: shared.desire.load(Ordering::Relaxed) as i8, model },
+        applied,
+        obs,
+    }
+}
+
+#[derive(Clone, Default)]
+struct BfsOut {
+    states: u64,
+    transitions: u64,
+    replayed_events: u64,
+    depth: u64,
+    fixpoint: bool,
+}
+
+/// Level-parallel BFS over ALL configurations at once (one barrier per depth instead of one
+/// per configuration and depth). Every (state, event) pair of a level is executed against the
+/// real source; threads only partition the level.
+fn explore_all(ctx: &Ctx, cfgs: &[(Cfg, Vec<Ev>)], classes: &Mutex<BTreeMap<String, u64>>) -> Vec<BfsOut> {
+    let mut outs = vec![BfsOut { states: 1, ..BfsOut::default() }; cfgs.len()];
+    let mut seen: HashSet<(usize, Key)> = HashSet::new();
+    let mut frontier: Vec<(usize, Vec<Ev>)> = Vec::new();
+    for (ci, (cfg, _)) in cfgs.iter().enumerate() {
+        let root = super::block_on_paused(replay_hist(cfg, &[], None, None));
+        seen.insert((ci, root.key));
+        frontier.push((ci, vec![]));
+    }
+    let mut depth = 0u64;
+    while !frontier.is_empty() {
+        if ctx.over_budget() {
+            let open: Vec<String> = {
+                let mut v: Vec<usize> = frontier.iter().map(|f| f.0).collect();
+                v.dedup();
+                v.iter().map(|i| cfgs[*i].0.tag()).collect()
+            };
+            ctx.cap_hit(&format!("depth {} not started (budget); depth <= {} complete for every configuration; not yet at fixpoint: {}", depth + 1, depth, open.join(" ")));
+            break;
+        }
+        let found: Mutex<Vec<(usize, Vec<Ev>, Key)>> = Mutex::new(Vec::new());
+        let stats: Mutex<Vec<(u64, u64)>> = Mutex::new(vec![(0, 0); cfgs.len()]);
+        common::par_for(frontier.len() as u64, 8, |i| {
+            let (ci, base) = &frontier[i as usize];
+            let (cfg, events) = &cfgs[*ci];
+            let mut local = Vec::new();
+            let lc: Mutex<BTreeMap<String, u64>> = Mutex::new(BTreeMap::new());
+            let (mut t, mut r) = (0u64, 0u64);
+            rig::on_paused_rt(async {
+                for ev in events {
+                    let mut h = base.clone();
+                    h.push(*ev);
+                    let end = replay_hist(cfg, &h, Some(ctx), Some(&lc)).await;
+                    if !end.applied {
+                        continue;
+                    }
+                    t += 1;
+                    r += h.len() as u64;
+                    local.push((*ci, h, end.key));
+                }
+            });
+            found.lock().unwrap().extend(local);
+            {
+                let mut st = stats.lock().unwrap();
+                st[*ci].0 += t;
+                st[*ci].1 += r;
+            }
+            let mut g = classes.lock().unwrap();
+            for (k, v) in lc.into_inner().unwrap() {
+                *g.entry(k).or_insert(0) += v;
+            }
+        });
+        for (ci, (t, r)) in stats.into_inner().unwrap().into_iter().enumerate() {
+            outs[ci].transitions += t;
+            outs[ci].replayed_events += r;
+        }
+        let mut found = found.into_inner().unwrap();
+        found.sort_by(|a, b| (a.0, &a.1).cmp(&(b.0, &b.1)));
+        let mut next = Vec::new();
+        depth += 1;
+        for (ci, h, k) in found {
+            let terminal = k.model.terminal != 0;
+            if seen.insert((ci, k)) {
+                outs[ci].states += 1;
+                if !terminal {
+                    // terminal states (reset / demobilised) have no successors
+                    outs[ci].depth = depth;
+                    next.push((ci, h));
+                }
+            }
+        }
+        frontier = next;
+    }
+    for (ci, o) in outs.iter_mut().enumerate() {
+        o.fixpoint = !frontier.iter().any(|f| f.0 == ci);
+    }
+    ctx.distinct_many(seen.iter().map(|(ci, k)| common::hash_of(&(&cfgs[*ci].0, k))));
+    outs
+}
+
+fn replay(ctx: &Ctx, trace: &str) -> String {
+    let Some((cfg, hist)) = parse_trace(trace) else {
+        return format!("unparsable trace {trace:?}");
+    };
+    let classes = Mutex::new(BTreeMap::new());
+    // check every prefix so that the violating step is found wherever it is
+    let mut obs = String::new();
+    for n in 1..=hist.len() {
+        let end = super::block_on_paused(replay_hist(&cfg, &hist[..n], Some(ctx), Some(&classes)));
+        obs = format!("{} applied={} key={:?}", end.obs, end.applied, end.key);
+    }
+    obs
+}
+
+/// Part G: every word of length <= L over {T, GN, GD, GK} where the G answers come from real
+/// `Server`s (allow-all, deny-all, foreign key set) fed with the request the source emitted.
+/// Same oracle as the byte-level answers (GN = N, GD = DENY, GK = NTSN).
+fn run_genuine(ctx: &Ctx, classes: &Mutex<BTreeMap<String, u64>>) {
+    let c = |nts, ver| Cfg { nts, ver, min: 4, init: 4, max: 6 };
+    let cfgs = [c(true, Ver::V4), c(true, Ver::V5), c(false, Ver::V4), c(false, Ver::V5)];
+    let max_len = if ctx.quick() { 6 } else { 8 };
+    let applied = std::sync::atomic::AtomicU64::new(0);
+    for cfg in &cfgs {
+        for len in 1..=max_len {
+            common::par_for(common::pow(GENUINE_EV.len(), len), 32, |x| {
+                let evs: Vec<Ev> = common::word_of(x, GENUINE_EV.len(), len).iter().map(|i| GENUINE_EV[*i]).collect();
+                if evs[0] != Ev::T {
+                    return; // nothing to answer before the first request
+                }
+                let lc: Mutex<BTreeMap<String, u64>> = Mutex::new(BTreeMap::new());
+                let end = rig::on_paused_rt(replay_hist(cfg, &evs, Some(ctx), Some(&lc)));
+                if end.applied {
+                    applied.fetch_add(1, Ordering::Relaxed);
+                    ctx.distinct(common::hash_of(&("G", cfg, &end.key)));
+                    let mut g = classes.lock().unwrap();
+                    for (k, v) in lc.into_inner().unwrap() {
+                        *g.entry(format!("g-{k}")).or_insert(0) += v;
+                    }
+                }
+            });
+        }
+    }
+    let n = applied.load(Ordering::Relaxed);
+    ctx.add("transitions", n);
+    ctx.add("evaluations", n);
+    ctx.set("genuine_histories", n);
+}
+
+fn configs(quick: bool) -> Vec<Cfg> {
+    let c = |nts, ver, min, max| Cfg { nts, ver, min, init: min, max };
+    let mut v = vec![
+        c(false, Ver::V4, 4, 6),
+        c(false, Ver::V5, 4, 6),
+        c(true, Ver::V4, 4, 6),
+        c(true, Ver::V5, 4, 6),
+        c(false, Ver::Auto, 4, 6),
+        // the daemon's default limits
+        c(false, Ver::V4, 4, 10),
+    ];
+    if !quick {
+        v.push(c(true, Ver::V5, 4, 10));
+        v.push(c(false, Ver::V5, 4, 10));
+        v.push(c(true, Ver::V4, 4, 10));
+        v.push(c(false, Ver::Auto, 4, 10));
+        v.push(c(false, Ver::V4, 0, 17));
+        v.push(c(false, Ver::V5, 6, 6));
+        v.push(c(true, Ver::V4, 0, 3));
+        v.push(c(false, Ver::V4, 10, 17));
+    }
+    v
+}
+
+#[test]
+fn check() {
+    let ctx = Ctx::new("C09");
+    if let Some(t) = common::replay_trace() {
+        let a = replay(&ctx, &t);
+        let b = replay(&ctx, &t);
+        common::report_replay("C09", &a, &b, ctx.violation_count() > 0);
+        return;
+    }
+    ctx.rule(
+        "breadth-first search to fixpoint over histories of {T, N, NU, RATE, DENY, RSTR, NTSN, UNK, DL, DH} on the real NtpSource \
+         (plain / NTS x NTPv4 / NTPv5 / v4-upgrading, poll limits per config), answers byte-assembled for the pending request \
+         (NTS: authenticated with the s2c key; NTS-NAK in the clear); answer events are enabled while a request is outstanding, \
+         so several answers per poll and every interleaving with unanswered polls is covered. Part G: every word of length <= 6 (thorough 8) \
+         over {T, GN, GD, GK} with answers produced by real Servers (allow-all / deny-all / foreign key set) from the emitted request. Distinct & non-trivial = a distinct \
+         (config, canonical source view, own desire, oracle state) reached by at least one event.",
+    );
+    ctx.assume("a KISS answer does not consume the outstanding request (a further answer to it is still 'valid'); the harness cross-checks this with the probe's pending flag and counts disagreements as pending-view-differs");
+    ctx.assume("canonical key: identifiers masked, tries saturated at 3 (only compared with the start-up threshold), bloom-filter cursor and stub controller internals excluded (do not influence actions)");
+    ctx.assume("usable answer = one after which the controller received measurements (acceptance rules themselves are C08)");
+    ctx.assume("NTPv5 classes kept unambiguous: RATE = stratum 0 & poll own+1, DENY = poll 127, NAK = authnak & poll own, unknown = stratum 0 & poll own; the overlapping encodings are C07 (D1)");
+    let classes = Mutex::new(BTreeMap::new());
+    let cfgs: Vec<(Cfg, Vec<Ev>)> = configs(ctx.quick())
+        .into_iter()
+        .map(|cfg| {
+            let events: Vec<Ev> = ALL_EV
+                .iter()
+                .copied()
+                .filter(|e| match e {
+                    Ev::NU => cfg.ver == Ver::Auto,
+                    Ev::DH | Ev::DL => desire_values(&cfg).0 != desire_values(&cfg).1,
+                    _ => true,
+                })
+                .collect();
+            (cfg, events)
+        })
+        .collect();
+    let outs = explore_all(&ctx, &cfgs, &classes);
+    let mut all_fix = true;
+    for ((cfg, _), r) in cfgs.iter().zip(outs.iter()) {
+        ctx.add("states", r.states);
+        ctx.add("transitions", r.transitions);
+        ctx.add("evaluations", r.transitions);
+        ctx.add("replayed_events", r.replayed_events);
+        ctx.max("max_depth", r.depth);
+        if !r.fixpoint {
+            all_fix = false;
+        }
+        let line = format!("{} states, {} transitions, depth {}, fixpoint {}", r.states, r.transitions, r.depth, r.fixpoint);
+        ctx.note(&format!("bfs_{}", cfg.tag()), &line);
+        ctx.sample(format!("{}: {line}", cfg.tag()));
+    }
+    ctx.set("bfs_wall_ms", (ctx.elapsed_s() * 1000.0) as u64);
+    run_genuine(&ctx, &classes);
+    for (k, v) in classes.lock().unwrap().iter() {
+        ctx.set(&format!("class_{}", k.replace('-', "_")), *v);
+    }
+    ctx.exhaustive(all_fix);
+    ctx.finish();
+}
